@@ -401,7 +401,7 @@ theorem rc_invoke (n : Nat) (ih : ∀ m, m < n + 1 → RC ts k m) : InvokeRef ts
             subst hv
             obtain ⟨rfl, rfl⟩ := hmatch
             simp [coreRes, conv, hfc, hb3, hf3, hl3, hn3, convO]
-  | body sc args body mod hg hcb hndc =>
+  | body sc args body mod hg hcb =>
     simp only at hmod hbody
     subst hmod
     obtain ⟨hL, hn0, restD, hED⟩ := hbody trivial
@@ -412,14 +412,14 @@ theorem rc_invoke (n : Nat) (ih : ∀ m, m < n + 1 → RC ts k m) : InvokeRef ts
     have hσ1 : StOK σ1 := ⟨by rw [hf1]; exact hσ.frames, by rw [hn1]; exact hσ.next⟩
     have F := cb_facts cmod body _ hcb
     have hinner : innerEnv ⟨args, noFlags, body, .body, cmod⟩ lexS bound E pend =
-        ⟨bound ++ E.vars, Spec.declared false cmod body ++ E.defs, lexS, [], E.nb, E.nf, cmod⟩ := by
+        ⟨bound ++ E.vars, Spec.callDefsOf cmod body ++ E.defs, lexS, [], E.nb, E.nf, cmod⟩ := by
       have hk : (Spec.Kind.body == Spec.Kind.main) = false := rfl
-      simp [innerEnv, hk, Spec.isBuffering, noFlags]
+      simp [innerEnv, hk, F.decl, Spec.isBuffering, noFlags]
     rw [hinner]
     -- the defs of the `<%call>` are already in scope (they came with the layer)
-    have hFD : ClosRel l.funs (Spec.declared false cmod body ++ E.defs) := by
+    have hFD : ClosRel l.funs (Spec.callDefsOf cmod body ++ E.defs) := by
       intro x hx
-      rw [hED, lookup_redeclared x hx _ _ _ _ (by rw [callDefsOf_names_mod]; exact hndc) F.sub, ← hED]
+      rw [hED, lookup_dup_prefix x hx, ← hED]
       exact hR.funs x hx
     obtain ⟨m, o1, hm, hS, hto1, ho⟩ := core_bare (progOf ts k) (proeff_skips _ (bodyHoist_skips body _ _ _ _ _ hg))
       (hb1.trans hb) hex hto
